@@ -4,6 +4,8 @@ import (
 	"fmt"
 	"sort"
 	"strings"
+
+	"golang.org/x/tools/go/ssa"
 )
 
 func init() {
@@ -50,8 +52,10 @@ func runC03(c *Ctx) {
 	R.Rule("ctor", "NewSetFromSlice/Keys/Values add every element of the argument to a fresh set; CartesianProduct = nested complete enumerations appending one Product per pair", 7)
 
 	impls := []setImpl{{"maps", "Set", "maps.(Set).", false}, {"sync2", "Set", "sync2.(*Set).", true}}
+	R.Rule("string-format", "String prints every enumerated member exactly once, a separator exactly before each member but the first; first-ness is a flag advanced by the enumeration, not read back from the output", 2)
 	for _, im := range impls {
 		c03Impl(c, im)
+		c03StringFormat(c, im)
 	}
 	c03Ctors(c)
 	runMapProtocol(c, "map/")
@@ -92,7 +96,10 @@ func c03Impl(c *Ctx, im setImpl) {
 		if t.Op == "mkmap" || t.Op == "alloc" {
 			return true
 		}
-		if t.Op == "call" && (strings.HasSuffix(t.Sym, ".Clone") || strings.HasSuffix(t.Sym, ".SetDiff") || strings.HasSuffix(t.Sym, ".Intersect") || strings.HasSuffix(t.Sym, ".Union") || strings.HasSuffix(t.Sym, ".SymDiff")) {
+		// methods of the two implementations (or of the interface) that are themselves decided to return fresh sets;
+		// a package-level helper that happens to be called Clone is not one of them
+		isSetMethod := strings.HasPrefix(t.Sym, "maps.(Set).") || strings.HasPrefix(t.Sym, "sync2.(*Set).") || strings.HasPrefix(t.Sym, "iface.Set.")
+		if t.Op == "call" && isSetMethod && (strings.HasSuffix(t.Sym, ".Clone") || strings.HasSuffix(t.Sym, ".SetDiff") || strings.HasSuffix(t.Sym, ".Intersect") || strings.HasSuffix(t.Sym, ".Union") || strings.HasSuffix(t.Sym, ".SymDiff")) {
 			return true
 		}
 		return false
@@ -767,4 +774,230 @@ func c03Ctors(c *Ctx) {
 		}
 		R.Decide(ok, "ctor", fi.Name, "pairs", c.pos(fi), "nested complete enumerations, one Product{a,b} appended per pair", why)
 	}
+}
+
+// ---------------------------------------------------------------------------
+// string-format: String prints each enumerated member exactly once, with a separator before every
+// member but the first; "first" is decided by a flag that only the enumeration itself advances, never by
+// what has been printed so far (a member that prints as "" would then swallow a separator).
+
+type c3Step struct {
+	conds  []Cond
+	events []Event
+	next   *Term // value of the flag after the step (nil: unchanged)
+}
+
+func c03StringFormat(c *Ctx, im setImpl) {
+	rule := "string-format"
+	fi := c.fn(rule, im.prefix+"String")
+	if fi == nil {
+		return
+	}
+	ps := c.paths(rule, fi)
+	if ps == nil {
+		return
+	}
+	R := c.R
+	fail := func(why string) {
+		R.Refuted(rule, fi.Name, "step", c.pos(fi), why).Breaks = "String no longer lists exactly the members (a member is dropped, doubled, or glued to its neighbour)"
+	}
+	var steps []c3Step
+	var member, flag, init *Term
+	isFlag := func(t *Term) bool { return flag != nil && t != nil && t.Key() == flag.Key() }
+	if im.ptr {
+		if len(ps) != 1 {
+			fail("String branches outside the enumeration")
+			return
+		}
+		p := ps[0]
+		var mk *Event
+		for i := range p.Events {
+			e := &p.Events[i]
+			if e.Kind == "call" && strings.HasSuffix(e.Name, ".Range") && len(e.Args) == 2 {
+				for j := range p.Events {
+					if p.Events[j].Kind == "mkclosure" && p.Events[j].Val.Key() == e.Args[1].Key() {
+						mk = &p.Events[j]
+					}
+				}
+			}
+		}
+		if mk == nil {
+			R.Unproven(rule, fi.Name, "step", c.pos(fi), "String does not enumerate through Range with a local closure")
+			return
+		}
+		cp := c.An.ClosurePaths(mk)
+		if cp.Unproven != "" {
+			R.Unproven(rule, fi.Name, "step", c.pos(fi), "cannot summarise the closure: "+cp.Unproven)
+			return
+		}
+		member = &Term{Op: "param", N: 0, Fn: mk.SSAFn}
+		// the flag: the cell the closure branches on
+		for _, q := range cp.Paths {
+			for _, cd := range q.Conds {
+				t := stripNotTerm(cd.T)
+				if t.Op == "load" && len(t.Args) == 1 && t.Args[0].Op == "alloc" {
+					flag = t.Args[0]
+				}
+			}
+		}
+		for _, q := range cp.Paths {
+			st := c3Step{conds: q.Conds, events: q.Events}
+			for i := range q.Events {
+				e := &q.Events[i]
+				if e.Kind == "store" && isFlag(e.Addr) {
+					st.next = e.Val
+				}
+			}
+			steps = append(steps, st)
+		}
+		if flag != nil {
+			for i := range p.Events {
+				e := &p.Events[i]
+				if e.Kind == "mkclosure" && e == mk {
+					break
+				}
+				if e.Kind == "store" && isFlag(e.Addr) {
+					init = e.Val
+				}
+			}
+			if init == nil {
+				init = &Term{Op: "const", Sym: "false"}
+			}
+		}
+	} else {
+		loops := findLoops(ps)
+		if len(loops) != 1 {
+			R.Unproven(rule, fi.Name, "step", c.pos(fi), fmt.Sprintf("expected one enumeration loop, found %d", len(loops)))
+			return
+		}
+		li := loops[0]
+		it := c14IterOf(li)
+		if it == nil || it.kind != "map" || !isParam(it.over, 0) {
+			fail("String does not range over the set itself")
+			return
+		}
+		member = &Term{Op: "extract", N: 1, Args: []*Term{it.next}}
+		var fphi *ssa.Phi
+		for _, q := range li.Back {
+			for _, cd := range q.Conds {
+				if cd.NEv < q.LoopAt[li.Hdr] {
+					continue
+				}
+				t := stripNotTerm(cd.T)
+				for phi, lv := range li.LV {
+					if t.Key() == lv.Key() {
+						fphi, flag = phi, lv
+					}
+				}
+			}
+		}
+		for _, q := range li.Back {
+			st := c3Step{}
+			at := q.LoopAt[li.Hdr]
+			for _, cd := range q.Conds {
+				if cd.NEv >= at && !(cd.T.Op == "extract" && cd.T.N == 0) {
+					st.conds = append(st.conds, cd)
+				}
+			}
+			for i := at; i < len(q.Events); i++ {
+				if k := q.Events[i].Kind; k == "next" || k == "range" {
+					continue
+				}
+				st.events = append(st.events, q.Events[i])
+			}
+			if fphi != nil {
+				st.next = q.Next[fphi]
+				if st.next != nil && st.next.Key() == flag.Key() {
+					st.next = nil
+				}
+			}
+			steps = append(steps, st)
+		}
+		if fphi != nil {
+			init = li.Init[fphi]
+		}
+	}
+	if flag == nil || init == nil || !(init.IsConst("false") || init.IsConst("true")) {
+		R.Unproven(rule, fi.Name, "step", c.pos(fi), "the per-member step is not decided by a boolean first-member flag with a constant initial value (a decision read from what has been printed so far depends on how members format)")
+		return
+	}
+	v0 := init.IsConst("true")
+	if len(steps) != 2 {
+		fail(fmt.Sprintf("the per-member step has %d paths; expected first / not-first", len(steps)))
+		return
+	}
+	for _, st := range steps {
+		if len(st.conds) != 1 {
+			fail("the per-member step tests more than the first-member flag")
+			return
+		}
+		t, pol := stripNot(st.conds[0].T, st.conds[0].Pol)
+		if im.ptr {
+			if !(t.Op == "load" && isFlag(t.Args[0])) {
+				fail("the per-member step is decided by " + t.String() + ", not by the flag")
+				return
+			}
+		} else if !isFlag(t) {
+			fail("the per-member step is decided by " + t.String() + ", not by the flag")
+			return
+		}
+		first := pol == v0
+		seps, prints := 0, 0
+		sepIdx, printIdx := -1, -1
+		for i := range st.events {
+			e := &st.events[i]
+			switch {
+			case e.Kind == "store" && (isFlag(e.Addr) || (e.Addr.Op == "iaddr" && e.Addr.Args[0].Op == "alloc")):
+			case e.Kind == "call" && strings.HasPrefix(e.Name, "strings.(*Builder).Write") && len(e.Args) == 2 && isConstLike(e.Args[1]):
+				seps++
+				sepIdx = i
+			case e.Kind == "call" && (e.Name == "fmt.Fprint" || e.Name == "fmt.Fprintf") && len(e.Args) >= 2:
+				// the variadic array must hold exactly the member
+				holds := 0
+				for j := range st.events {
+					s := &st.events[j]
+					if s.Kind == "store" && s.Addr.Op == "iaddr" && e.Args[len(e.Args)-1].ContainsKey(s.Addr.Args[0].Key()) {
+						if stripIface(s.Val).Key() == member.Key() {
+							holds++
+						} else {
+							holds = -99
+						}
+					}
+				}
+				if holds != 1 {
+					fail("the print call is not given exactly the member")
+					return
+				}
+				prints++
+				printIdx = i
+			default:
+				fail("unexpected effect in the per-member step: " + e.String())
+				return
+			}
+		}
+		if prints != 1 {
+			fail(fmt.Sprintf("a step prints the member %d times", prints))
+			return
+		}
+		if first {
+			if seps != 0 {
+				fail("a separator is written before the first member")
+				return
+			}
+			if st.next == nil || !st.next.IsConst(map[bool]string{true: "false", false: "true"}[v0]) {
+				fail("the first-member step does not advance the flag: every member is treated as the first")
+				return
+			}
+		} else {
+			if seps != 1 || sepIdx > printIdx {
+				fail(fmt.Sprintf("a later member is preceded by %d separators", seps))
+				return
+			}
+			if st.next != nil && !st.next.IsConst(map[bool]string{true: "false", false: "true"}[v0]) {
+				fail("a later member resets the flag")
+				return
+			}
+		}
+	}
+	R.Held(rule, fi.Name, "step", c.pos(fi), "each member printed once; separator exactly before every member but the first, decided by a flag the enumeration advances")
 }
